@@ -38,6 +38,7 @@ pub fn generator(prop: &str) -> Option<Gen> {
     match prop {
         "C12" => Some(gen::gen_c12),
         "C03" => Some(gen::gen_c03),
+        "C09" => Some(gen::gen_c09),
         _ => None,
     }
 }
